@@ -180,6 +180,75 @@ def run_ctor_case(case):
     return dict(vpos=vpos, entries=entries, wires=wires)
 
 
+# ---- Model/C07_Series.v against the constructor (stream (d), series cases) ------------------------------------------
+
+def _canon_ids(faces):
+    """id of a point = first position in the flattened face list holding the same coordinates"""
+    flat = [p for f in faces for p in f]
+    ids = []
+    for k, p in enumerate(flat):
+        ids.append(next(j for j in range(k + 1) if all(abs(a - b) <= 1e-12 for a, b in zip(flat[j], p))))
+    return flat, ids
+
+
+def _edge_code(edge, flat, ids):
+    """(kind code, ids of its points): 1 Line, 2 Arc, 3 Spline; anything else / a point that is none of the given: 99"""
+    np = _np()
+    _cb()
+    from classy_blocks.construct import edges as E
+
+    def pid(q):
+        q = [float(x) for x in np.asarray(q, dtype=float).reshape(-1)]
+        for j, p in enumerate(flat):
+            if len(q) == 3 and all(abs(a - b) <= 1e-12 for a, b in zip(p, q)):
+                return ids[j]
+        return 999999
+    if type(edge) is E.Line:
+        return (1, [])
+    if type(edge) is E.Arc:
+        return (2, [pid(edge.point.position)])
+    if type(edge) is E.Spline:
+        return (3, [pid(q) for q in edge.curve.discretize()])
+    return (99, [])
+
+
+def series_observation(faces):
+    """Loft.from_series on the faces, nothing else: (faces as ids, side edges as built, side edges after invert())"""
+    cb = _cb()
+    flat, ids = _canon_ids(faces)
+    with warnings.catch_warnings():
+        warnings.simplefilter("ignore")
+        op = cb.Loft.from_series([cb.Face(f) for f in faces])
+        if len(op.side_edges) != 4:
+            raise GenError("an operation with %d side edges" % len(op.side_edges))
+        built = [_edge_code(e, flat, ids) for e in op.side_edges]
+        op.invert()
+        inverted = [_edge_code(e, flat, ids) for e in op.side_edges]
+    k = 0
+    fid = []
+    for f in faces:
+        fid.append(ids[k:k + len(f)])
+        k += len(f)
+    return dict(faces=fid, built=built, inverted=inverted)
+
+
+def series_coq_case(cid, ob):
+    def nl(l):
+        return "[" + "; ".join(str(int(x)) for x in l) + "]"
+
+    def codes(cs):
+        return "[" + "; ".join("(%d, %s)" % (k, nl(p)) for (k, p) in cs) + "]"
+    return "(%d, ([%s], %s, %s))" % (cid, "; ".join(nl(f) for f in ob["faces"]), codes(ob["built"]), codes(ob["inverted"]))
+
+
+def series_cases_file(obs):
+    body = ["From Coq Require Import List Bool Arith.", "From CB Require Import Model.C07_Series.", "Import ListNotations.",
+            "Definition cases : list (nat * (list (list nat) * list (nat * list nat) * list (nat * list nat))) := [",
+            ";\n".join(series_coq_case(i, ob) for i, ob in enumerate(obs)), "].",
+            "Eval vm_compute in (map fst (filter (fun c => negb (series_agree (snd c))) cases))."]
+    return "\n".join(body) + "\n"
+
+
 # ---- oracle -----------------------------------------------------------------------------------------------------
 
 def circle3(a, m, b):
